@@ -194,7 +194,10 @@ def patches(ctx, ch, ps, off, frac):
             ref = window_reference(px, (int(cen[0] + o[0]), int(cen[1] + o[1])), ps, 0)
             if tuple(got.shape) == want_shape:
                 ctx.check_eq('slicing-path/content[%d,%d]' % (i, j), np.asarray(got[i, j]), ref)
-            if tuple(got2.shape) == want_shape:
+            if tuple(got2.shape) == want_shape and not frac:
+                # (fractional centres: scipy's 'constant' mode already treats a
+                # coordinate of -0.3 as outside, the slicing path rounds first;
+                # the statement compares the two paths at integer centres only)
                 ctx.check_eq('sampling-path/content[%d,%d]' % (i, j), np.asarray(got2[i, j]), ref)
     if frac or off != 'zero':
         return
